@@ -9,6 +9,7 @@ from hypothesis import strategies as st
 
 from .. import sched
 from ..common import Run, ShardResult, run_shards, scratch, spec_hash, verif_seed
+from ..common import thorough  # noqa: E402
 from ..hyp import Outcome, drive
 
 PROP = "C15"
@@ -196,7 +197,7 @@ def shard(shard, nshards, n, tier, seed):
 
 def run(tier: str) -> int:
     run_ = Run(PROP, tier, "fault_enumeration", RULE)
-    n = 1 if tier == "quick" else 20
+    n = 1 if tier == "quick" else thorough(8)
     for part in run_shards(shard, 16, n=n, tier=tier, seed=verif_seed()):
         run_.merge(part)
     run_.extra["crash_points_enumerated"] = BUILDER_POINTS
